@@ -176,6 +176,14 @@ def check(case):
             # grad z = zetahat/R - (Bt hy/(Bp R)) grad y
             want_z = c["ct"] / R - dph * want_y
             near = gridcheck.near_xpoint_mask(R, Z, xpts, 0.0)
+            if loc == "ylow" and side["mesh_options"].get("cap_Bp_ylow_xpoint"):
+                # the documented 'fudge' replaces Bpxy_ylow on the y-faces next to an X-point: what
+                # is derived from it there is no longer the curvature of the equilibrium field
+                near = near.copy()
+                if any(p is not None for p in reg["xp_start"]):
+                    near[:, 0] = True
+                if any(p is not None for p in reg["xp_end"]):
+                    near[:, -1] = True
             for comp, want in (("x", want_x), ("y", want_y), ("z", want_z)):
                 got = f["curl_bOverB_" + comp].get(loc)
                 if got is None:
